@@ -40,8 +40,13 @@ public:
             int k = (int)r.range(0, 22);
             int kind = r.weighted({ 28, 36, 10, 8, 10, 8 });   // 0 server close, 1 abortive cut, 2 stall (session only), 3 connect refused, 4 clean </stream> close, 5 see-other-host at this point
             int iqs = (int)r.uniform(4);
-            p.ops.append(mkop(QStringLiteral("att"), { k, kind, iqs }, {}, (quint32)r.next()));
+            // the (conforming) server may have expired the stream-management session by the time the client comes back
+            const int expire = r.chance(0.25) ? 1 : 0;
+            p.ops.append(mkop(QStringLiteral("att"), { k, kind, iqs, expire }, {}, (quint32)r.next()));
             p.ops.append(mkop(QStringLiteral("wait"), { (qint64)r.uniform(2) }, {}, (quint32)r.next()));
+        }
+        if (r.chance(0.2)) {
+            p.ops.append(mkop(QStringLiteral("expire")));
         }
         p.ops.append(mkop(QStringLiteral("clean")));
         return p;
@@ -273,6 +278,10 @@ public:
                     }
                     settle();
                     onStepInvariants();
+                    if (op.arg(3) == 1 && !where.isEmpty()) {
+                        w.fault("server_expired_sm_sessions");
+                        w.server->forgetSmSessions();
+                    }
                     if (where.isEmpty()) {
                         w.probe("nothing_to_cut");
                     } else if (w.connectPending) {
@@ -281,6 +290,9 @@ public:
                     } else {
                         checkDisconnectedState(where + (established ? QStringLiteral(":session") : QStringLiteral(":negotiation")));
                     }
+                } else if (op.kind == QLatin1String("expire")) {
+                    w.fault("server_expired_sm_sessions");
+                    w.server->forgetSmSessions();
                 } else if (op.kind == QLatin1String("wait")) {
                     if (w.client->state() != QXmppClient::DisconnectedState || w.connectPending) {
                         w.afterStep();
